@@ -13,6 +13,10 @@ package main
 import (
 	"fmt"
 	"go/types"
+	"sort"
+	"strings"
+
+	"golang.org/x/tools/go/ssa"
 )
 
 type fsFile struct {
@@ -290,4 +294,53 @@ func trailUndoFs() {
 
 func init() {
 	externals[hpkg+"vFsPath"] = func(fr *frame, a []value) value { return a[0] }
+}
+
+func init() {
+	// filepath.WalkDir over the model: every file directly in root is visited
+	// in name order with a vDirEntry (harness type) as its directory entry.
+	externals["path/filepath.WalkDir"] = func(fr *frame, a []value) value {
+		root, _ := goString(a[0])
+		var names []string
+		for name := range fs.files {
+			dir := "."
+			base := name
+			if i := strings.LastIndex(name, "/"); i >= 0 {
+				dir, base = name[:i], name[i+1:]
+				if dir == "" {
+					dir = "/"
+				}
+			}
+			_ = base
+			if dir == root || dir+"/" == root {
+				names = append(names, name)
+			}
+		}
+		sort.Strings(names)
+		det, ok := fr.i.mainPkg.Members["vDirEntry"].(*ssa.Type)
+		if !ok {
+			theEx.unsupported("filepath.WalkDir without the harness type vDirEntry")
+		}
+		usedIntrinsics["file system model (filepath.WalkDir over the model's files)"]++
+		for _, name := range names {
+			base := name
+			if i := strings.LastIndex(name, "/"); i >= 0 {
+				base = name[i+1:]
+			}
+			entry := iface{t: det.Type(), v: structure{base}}
+			res := call(fr.i, fr, fr.callpos, a[1], []value{name, entry, iface{}})
+			if e, isIface := res.(iface); isIface && e.t != nil {
+				return e
+			}
+		}
+		return iface{}
+	}
+	externals["path/filepath.Split"] = func(fr *frame, a []value) value {
+		p, ok := goString(a[0])
+		if !ok {
+			return notHandled
+		}
+		i := strings.LastIndex(p, "/")
+		return tuple{p[:i+1], p[i+1:]}
+	}
 }
